@@ -2,14 +2,18 @@
 
 CFG = {
         "tier_a": ["UFSeq"],
-        "model_targets": ["UF/Ops.vo"],
-        "proof_targets": ["Props/C17.vo"],
-        "harness": [{"bin": "h_uf", "prefix": "cases_uf"}],
+        "model_targets": ["UF/Ops.vo", "UF/ConcModel.vo"],
+        "proof_targets": ["Props/C17.vo", "Props/C17c.vo"],
+        "props_files": ["C17", "C17c"],
+        "corr_is_violation": True,
+        "harness": [{"bin": "h_uf", "prefix": "cases_uf"},
+                    {"bin": "h_conc", "name": "h_conc_uf", "sub": "conc-uf", "extra": ["--only", "uf"],
+                     "prefix": "cases_ufc", "timeout": 900}],
         "trusted": [
             "translator /verif/translator (Rust subset -> Gallina over Res; emitted gen/UFSeq.v is what the theorems are about)",
         ],
-        "theorem_backed": "sequential UnionFind (translated from union-find/src/lib.rs): no panic, termination, same-root iff connected, representative = least id, path halving preserves the partition, for all operation sequences",
-        "link_only": "concurrent union-find (linearizability under real interleavings, memory ordering, Buffer growth): stress correspondence only",
+        "theorem_backed": "concurrent union-find PROTOCOL (hand-written interleaving semantics, one step per load/CAS of find_impl/merge/same_set, sequentially consistent, any number of threads): parent[x]<=x, partition = closure of the merges that took effect, compression never changes it, representative = least id, linearization-point facts for find/same_set/union's effect; REFUTED with witness: union's returned parent can be a stale non-root (c17c_union_parent_stale_refuted, c17c_linearizable_refuted). Sequential UnionFind (translated from union-find/src/lib.rs): no panic, termination, same-root iff connected, representative = least id, path halving preserves the partition, for all operation sequences",
+        "link_only": "concurrent union-find on the real code: memory ordering (Acquire/Release vs SC), Buffer growth under ReadOptimizedLock, real interleavings - stress only (final-state correspondence with the translated sequential union-find + interval-based necessary conditions of linearizability on timestamped histories)",
         "assumptions": [
             "ids are modelled as unbounded nat (u32/usize exhaustion not modelled)",
             "Vec indexing out of bounds is modelled as Panic and proved not to occur",
